@@ -45,6 +45,7 @@ type c14Graph struct {
 	init     int32
 	topics   []string
 	prods    []string
+	chans    []string
 }
 
 func c14Unquote(s string) string {
@@ -174,10 +175,15 @@ func c14LoadGraph(path string) (*c14Graph, error) {
 	}
 	g.out = make([][]int32, len(g.obs))
 	pset := map[string]bool{}
+	cset := map[string]bool{}
 	for i, e := range g.edges {
 		g.out[e.from] = append(g.out[e.from], int32(i))
 		if e.name == "Connect" {
 			pset[e.p] = true
+		}
+		if e.c != "" && !cset[e.c] {
+			cset[e.c] = true
+			g.chans = append(g.chans, e.c)
 		}
 	}
 	// the initial state must be the one without predecessors other than itself reachable by Connect only:
@@ -355,21 +361,23 @@ type c14Mismatch struct {
 }
 
 type c14ReplayReport struct {
-	States         int                      `json:"states"`
-	Edges          int                      `json:"edges"`
-	EdgesCovered   int                      `json:"edges_covered"`
-	Walks          int                      `json:"walks"`
-	Steps          int64                    `json:"steps"`
-	Queries        int64                    `json:"queries"`
-	ActionCounts   map[string]int64         `json:"action_counts"`
-	NontrivialEdge int                      `json:"nontrivial_edges_covered"`
-	TimingRetries  int                      `json:"timing_retries"`
-	TimingSkipped  int                      `json:"timing_skipped"`
-	Mismatches     []c14Mismatch            `json:"mismatches"`
-	DriverErrors   []string                 `json:"driver_errors"`
-	Samples        []map[string]interface{} `json:"samples"`
-	Regime         string                   `json:"regime"`
-	WallS          float64                  `json:"wall_s"`
+	States              int                      `json:"states"`
+	Edges               int                      `json:"edges"`
+	EdgesCovered        int                      `json:"edges_covered"`
+	Walks               int                      `json:"walks"`
+	Steps               int64                    `json:"steps"`
+	Queries             int64                    `json:"queries"`
+	ActionCounts        map[string]int64         `json:"action_counts"`
+	NontrivialEdge      int                      `json:"nontrivial_edges_covered"`
+	TimingRetries       int                      `json:"timing_retries"`
+	TimingSkipped       int                      `json:"timing_skipped"`
+	Interference        []string                 `json:"interference"`         // walks re-run because a foreign client touched their daemon
+	InterferenceSkipped int                      `json:"interference_skipped"` // ... and given up after 3 re-runs
+	Mismatches          []c14Mismatch            `json:"mismatches"`
+	DriverErrors        []string                 `json:"driver_errors"`
+	Samples             []map[string]interface{} `json:"samples"`
+	Regime              string                   `json:"regime"`
+	WallS               float64                  `json:"wall_s"`
 }
 
 type c14Exec struct {
@@ -397,6 +405,66 @@ func (e c14Edge) String() string {
 }
 
 type c14TimingMiss struct{ detail string }
+
+// c14Interference: the daemon of this walk was talked to by something that is not this harness (other checks run on the
+// same machine and a listener port of a daemon that has just exited may still be in somebody's configuration): the
+// observation names topics / channels / producers outside the model's universe. Not an observation of nsqlookupd.
+type c14Interference struct{ detail string }
+
+func (t *c14Interference) Error() string { return t.detail }
+
+func (g *c14Graph) foreignNames(o *c14Obs) string {
+	tset, cset, pset := map[string]bool{}, map[string]bool{}, map[string]bool{}
+	for _, t := range g.topics {
+		tset[t] = true
+	}
+	for _, c := range g.chans {
+		cset[c] = true
+	}
+	for _, p := range g.prods {
+		pset[p] = true
+	}
+	for _, t := range o.Topics {
+		if !tset[t] {
+			return "topic " + t
+		}
+	}
+	for _, l := range o.Lookup {
+		for _, c := range l.Channels {
+			if !cset[c] {
+				return "channel " + c
+			}
+		}
+		for _, p := range l.Producers {
+			if !pset[p] {
+				return "producer " + p
+			}
+		}
+	}
+	for _, cs := range o.Channels {
+		for _, c := range cs {
+			if !cset[c] {
+				return "channel " + c
+			}
+		}
+	}
+	for _, n := range o.Nodes {
+		if !pset[n.P] {
+			return "node " + n.P
+		}
+	}
+	for _, d := range o.Debug {
+		if !pset[d.P] || !tset[d.K[1]] || (d.K[2] != "" && !cset[d.K[2]]) {
+			return "registration " + strings.Join(d.K, ":") + " " + d.P
+		}
+	}
+	for _, p := range o.Clients {
+		if !pset[p] {
+			return "client " + p
+		}
+	}
+	return ""
+}
 
 func (t *c14TimingMiss) Error() string { return t.detail }
 
@@ -470,6 +538,9 @@ func (x *c14Exec) runWalk(wi int, walk []int32, tick time.Duration, steps, queri
 		}
 		exp := g.obs[to]
 		if diff := obs.Diff(exp); len(diff) > 0 {
+			if f := g.foreignNames(obs); f != "" {
+				return nil, &c14Interference{fmt.Sprintf("walk %d step %d: foreign %s seen on this walk's daemon", wi, si, f)}
+			}
 			m := mm("query", si, e, "")
 			m.Queries, m.Expected, m.Observed = diff, exp, obs
 			return m, nil
@@ -639,6 +710,12 @@ func c14Replay(args []string) int {
 						tick *= 2
 						continue
 					}
+					if itf, ok := err.(*c14Interference); ok && attempt < 3 {
+						mu.Lock()
+						report.Interference = append(report.Interference, itf.detail)
+						mu.Unlock()
+						continue // a fresh daemon on fresh ports
+					}
 					break
 				}
 				mu.Lock()
@@ -649,6 +726,8 @@ func c14Replay(args []string) int {
 				if err != nil {
 					if _, miss := err.(*c14TimingMiss); miss {
 						report.TimingSkipped++
+					} else if _, itf := err.(*c14Interference); itf {
+						report.InterferenceSkipped++
 					} else {
 						report.DriverErrors = append(report.DriverErrors, err.Error())
 					}
